@@ -224,6 +224,14 @@ func (r *dRun) createInitial(io dInit) {
 	case "foreign":
 		obj = r.desired(k, io.Value)
 		sim.AddOwner(obj, sim.Obj{"apiVersion": "apps/v1", "kind": "ReplicaSet", "metadata": sim.Obj{"name": "rs", "uid": "rs-" + r.sc.ID}}, true)
+	case "sibling-target-plain-ref":
+		// an attachment of ANOTHER target of the same decorator (marker and all) which lists this
+		// target as a plain, non-controller owner
+		obj = r.asCreatedByDC(k, io.Value, r.sc.ID)
+		delete(obj["metadata"].(map[string]interface{}), "ownerReferences")
+		ti := r.sc.targetInfo()
+		sim.AddOwner(obj, sim.Obj{"apiVersion": ti.APIVersion(), "kind": ti.Kind, "metadata": sim.Obj{"name": "sibling-" + r.sc.ID, "uid": "sibling-uid-" + r.sc.ID}}, true)
+		sim.AddOwner(obj, r.target, false)
 	}
 	s.MustCreate(ri.GVR(), obj)
 }
@@ -251,7 +259,7 @@ func genDScenario(rng *rand.Rand, id string) *dScenario {
 			sc.Kids = append(sc.Kids, kc)
 		}
 	}
-	for _, role := range []string{"ours-stale", "ours-drift", "ours-foreignfield", "other-decorator", "real-controller", "marker-only", "foreign"} {
+	for _, role := range []string{"ours-stale", "ours-drift", "ours-foreignfield", "other-decorator", "real-controller", "marker-only", "foreign", "sibling-target-plain-ref"} {
 		if rng.Intn(3) != 0 {
 			continue
 		}
